@@ -12,615 +12,689 @@ Definition show_fres (r : fres) : string :=
   end.
 Definition check (rs : list rune) : string := digest (show_fres (format_res rs)).
 Definition full (rs : list rune) : string := show_fres (format_res rs).
-Eval vm_compute in ("<<<M1874>>>" ++ check (runes_of_ascii "MetaData Logon {
-    zchar[7] BodyLength,
-    char Header,
-    // @lengthOf(
-    int8 x_y_z `u8 x,`,
-    i32 falsey,//
-    int16 lengthOf `two words`,
-}
+Eval vm_compute in ("<<<M1930>>>" ++ check (runes_of_ascii "//	t
 
-root packet options1 {
-    repeat A BodyLength,
-    metadata {
-        u64 calculatedFrom ``,
-    },
-    body {
-        i16 matchKey,
-        uint16 packetx `// not a comment`,
-        a1 ``,
-        repeat packetx,
-    },
-    body u8x `a\`,
-    @tag(10)
-    @tag(00)
-    // c
-    @rightPad('\x00' )
-    repeat tag {
-        i16 u `" ++ [233]%N ++ runes_of_ascii "`,
-    },
-    // a // b
-    // c
-    @lengthOf(u)
-    @calculatedFrom(""" ++ [128512]%N ++ runes_of_ascii """)
-    i16 falsey,
-    f32a @lengthOf(uint8x) `it's`,
-    asx @lengthOf(Header) `two words`,
-    // `tick` ""quote"" 'q'
-    @lengthOf(A)
-    @lengthOf(int)
-    @calculatedFrom(""1"")
-    char[] uint8x,
-    x_y_z @lengthOf(Foo) `crlf
-        line`,
-}
+packet 
+MetaDataX
 
-packet stringy {
-    repeat string len,
-    @calculatedFrom(""{,}"")
-    repeat o {
-        u64 float,
-    },
-    match i64_ as Pad {
-        [1] : roots,
-        ""it's"" : uint8x,
-        1 : MetaDataX,
-        [
-            255, ""a\""b"", """ ++ [233]%N ++ runes_of_ascii "t" ++ [233]%N ++ runes_of_ascii """, 65535, 4294967296,
-            7, 0123456789
-        ] : len,
-        255 : metadata,
-        ""it's"" : calculatedFrom,
-        // `tick` ""quote"" 'q'
-    },
-    @lengthOf(msg_type)
-    falsey @calculatedFrom(""" ++ [28040; 24687]%N ++ runes_of_ascii """),
-    repeat char[] trueish,
-    zchar[1] A,// `tick` ""quote"" 'q'
-    repeat metadata {
-        zchar[7] Pad,
-    },
-    @tag(3)
-    i32 body `u8 x,`,
-}// trailing space ")).
-Eval vm_compute in ("<<<M37>>>" ++ check (runes_of_ascii "options {
-packetx/// triple
-= 42; }
-    root packet falsey {@tag( 1 )
-crc { repeat	char[ 007 ] charz // 50% %s
-`it's` , repeat	u8
-    len `
-`
-    , crc trueish	, }	, match
-float as string_ {""x y"" :
-// " ++ [27880; 37322]%N ++ runes_of_ascii "
-//
-zchar , """ ++ [128512]%N ++ runes_of_ascii """
-    // " ++ [128512]%N ++ runes_of_ascii " emoji
-    : string_
-// trailing space 
-// @lengthOf(
-,""CRC32""  : options1
-, [""1"" // c
-] :
-crc
-    , ""packet"" // " ++ [27880; 37322]%N ++ runes_of_ascii "
-: options1 ,  [ 42
-, ""a	b""
-,
-    // trailing space 
-    """ ++ [233]%N ++ runes_of_ascii "t" ++ [233]%N ++ runes_of_ascii """ /// triple
-, ""abc""
-,0123456789, ""{,}""
-, // trailing space 
-00	,""" ++ [233]%N ++ runes_of_ascii "t" ++ [233]%N ++ runes_of_ascii """ // packet A { u8 x, }
-]:	asx },repeat  f64	charz
-, @tag( 10 ) repeat charz
-Logon , @lengthOf( u8x
-) @calculatedFrom( ""a\""b"" )
-    @rightPad // @lengthOf(
-(
-' '
-    ) u8 a1
-`u8 x,` ,	}
-packet	falsey  {
-    repeat
-char[] zchar, @tag( 255 )@calculatedFrom( ""`tick`""
-    )
-char[] asx `say ""hi""`
-    ,
-    u8  As `u8 x,` , // 50% %s
-zchar[00 ]	uint8x @lengthOf( // packet A { u8 x, }
-zchar ) , char[ 255  ]
-uint8x , Pad @lengthOf(
-    // packet A { u8 x, }
-    _x
-    )	`" ++ [233]%N ++ runes_of_ascii "` ,
-    _x,@rightPad (
-    ' ' ) uint16
-BodyLength/// triple
-, @lengthOf( int// " ++ [128512]%N ++ runes_of_ascii " emoji
-) metadata tag , int64	string_ `
-`
-, } root
-packet
-o {} options// packet A { u8 x, }
-{	}
-")).
-Eval vm_compute in ("<<<M1354>>>" ++ check (runes_of_ascii "options
-{ LittleEndian=
-
-    true
-;
-StringPrefixLenType  = 
-u8	;ArrayPrefixLenType
-
-    =u8
-; FixedStringPadFromLeft= 
-true ;
-
-    FixedStringPadChar	=
-'0'
-;	} 
-packet
-
-Logon{
-
-    repeat  i8
-Ref
-
-    ,
-
-@rightPad ('0'
-	)char[
-	8	]
-    msgKind,
+{@leftPad(  )
 repeat
 
-InOrderid72 
+    float64 
+asx 
+, } MetaData 
+Foo
+{  // a // b
+	char[
+65535
+	]Pad , }
+    packet body  // 50% %s
 {
-    u8
-	Side2,
-uint32 Qty,  repeat  InPrice27 {repeat
-char[4]Acct  ,
 
-    u64 sym ,
-} 
-, zchar[
-	4	]
-	clOrdID
+    match 
+asx	as
+    charz
+{  // `tick` ""quote"" 'q'
+	  10
+: u8x	,
 
-    ,int16 lastPx ,  InAcct22
-{repeat	char[
-
-    3
-	]
-OrderId
-    ,
-
-}
-	,}
-
-,
-    int64
-
-    Px,}packet	Fill {  uint16
-Qty , repeat char[
-    1 ] Flags ,
-    i8
-
-    Ref 
-,	}
-	packet
-Logout
-{ @leftPad
-    ('0'
-
-)
-char[	3 ]
-	x
-    ,
-int8
-f1 ,Logon
-, uint16
-venue
-    ,
-
-    zchar[
-	2
-
-    ]Px
-    ,
-	}	packet
-
-Reject {	} root
-
-packet
-
-Leg{
-Fill
-,u16
-
-    msgKind	,
-	match 
-msgKind
-as
-Body 
-{ [
-182,83
-
-]
-
+    ""it's""
     : 
-Fill ,
+leftPad
 
-    199 : 
-Reject 
-,
-137 :
-    Logout
+    , 3
+: metadata 
+        // trailing space 
+    //x
+  	, ""it's""
+    : x, [ 65535 ,  """ ++ [233]%N ++ runes_of_ascii "t" ++ [233]%N ++ runes_of_ascii """
+]
+	:
+    u128  ,
+    10
 
-, 35:  Logon,
-}
+:	// @lengthOf(
 
-,
-    u32
-lastPx@calculatedFrom(  ""CRC32"" )  ,
+len
+	},repeat
+f32  rootA
+	``
 
-    }")).
-Eval vm_compute in ("<<<M1154>>>" ++ check (runes_of_ascii "// top
-options
-    // c0
-{
-    // c1
-uint8x
-    // c2
-=
-    // c3
-007
-    // c4
-;
-    // c5
-lengthOf
-    // c6
-=
-    // c7
-i8
-    // c8
-;
-    // c9
-}
-    // c10
-packet
-    // c11
-i64_
-    // c12
-{
-    // c13
-@calculatedFrom(
-    // c14
-""1""
-    // c15
-)
-    // c16
-@tag(
-    // c17
-3
-    // c18
-)
-    // c19
-@lengthOf(
-    // c20
-rootA
-    // c21
-)
-    // c22
+    , // 50% %s
+  @leftPad( 
+
+//
+  ' '
+    )
+
 repeat
-    // c23
-int8
-    // c24
-Packet
-    // c25
-`tab	here`
-    // c26
-,
-    // c27
-}
-    // c28
-packet
-    // c29
-_x
-    // c30
+
+    i64  BodyLength // c
+  , repeatCount
+
+    {
+i16  crc
+@lengthOf(	u128
+
+)  ,
+    }
+    ,
+u16  // " ++ [27880; 37322]%N ++ runes_of_ascii "
+	  u  @lengthOf( f32a
+
+    ) 
+`// not a comment` , // trailing space 
+  len
 {
-    // c31
-matchKey
-    // c32
-x
-    // c33
-`" ++ [28040; 24687; 31867; 22411]%N ++ runes_of_ascii "`
-    // c34
+
+match
+    Logon
+as // @lengthOf(
+      Foo
+	{""" ++ [233]%N ++ runes_of_ascii "t" ++ [233]%N ++ runes_of_ascii """
+	: stringy
+
+    ,
+10 :msg_type ,  //	t
+	[
+""\n""
+,""`tick`""
 ,
-    // c35
-int32
-    // c36
-calculatedFrom
-    // c37
-`100% of %d`
-    // c38
-,
-    // c39
-@lengthOf(
-    // c40
-trueish
-    // c41
+""abc""
+
+,""""  ,  007  ,  1 
+,	""a\""b""
+	]  :
+i64_ 	 // packet A { u8 x, }
+
+  ,255  
+  //x
+    : T
+    ,
+
+""{,}"":
+f32a
+    },
+
+string
+
+    tag @lengthOf(Z9_ ), 
+  // a // b
+u32 charz
+    `crlf
+line`	,
+u8x @lengthOf( 	 /// triple
+      rootA
+    )
+,}, float
+	,
+int8  repeatCount
+@lengthOf(f32a
+
 )
-    // c42
-Packet
-    // c43
+`crlf
+line`
+
+    ,
+    zchar[
+    // packet A { u8 x, }
+      7  // a // b
+	]
+    BodyLength 
+@lengthOf(  string_  // a // b
+
+)	,
+
+    } 
+packet u128  {	x  `// not a comment`,
+}//
+
+packet
+
+x { 
+A`doc`
+
+    ,
+	Packet 
+@calculatedFrom(	// `tick` ""quote"" 'q'
+    ""\" ++ [233]%N ++ runes_of_ascii """
+    )
+
+`say ""hi""` , repeat  string
+asx 
+, @lengthOf(
+
+MetaDataX
+
+)
+	repeat char[4294967296  //
+		] 
+string_	`u8 x,`
+
 ,
-    // c44
-repeat
-    // c45
-f32
-    // c46
-o
-    // c47
-,
-    // c48
-}
-    // c49
+@lengthOf( charz ) char[
+
+    0123456789
+	]
+	f32a
+    `say ""hi""`
+,  }
+
 ")).
-Eval vm_compute in ("<<<M1661>>>" ++ check (runes_of_ascii "// top
-options {
-    LittleEndian = false;// c5
+Eval vm_compute in ("<<<M381>>>" ++ check (runes_of_ascii "options {
     StringPrefixLenType = u16;
-    // c9
-    FixedStringPadFromLeft = true;// c13
+    ArrayPrefixLenType = u16;
+}
+
+packet SampleBinary {
+    uint16 MsgType `" ++ [28040; 24687; 31867; 22411]%N ++ runes_of_ascii "`,
+    u16 BodyLenght @lengthOf(Body) `" ++ [28040; 24687; 20307; 38271; 24230]%N ++ runes_of_ascii "`,
+    match MsgType as Body {
+        1 : Logon,
+        2 : Logout,
+        3 : Heartbeat,
+        4 : RiskControlRequest,
+        5 : RiskControlResponse,
+    },
+    @calculatedFrom(""CRC32"")
+    u32 Ckecksum `" ++ [26657; 39564; 21644]%N ++ runes_of_ascii "`,
+}
+
+packet Logon {
+    @leftPad('0')
+    char[10] UserName `" ++ [29992; 25143; 21517]%N ++ runes_of_ascii "`,
+    string Password `" ++ [23494; 30721]%N ++ runes_of_ascii "`,
+    uint64 ClientId `" ++ [23458; 25143; 31471]%N ++ runes_of_ascii "ID`,
+    u16 HeartbeatInterval `" ++ [24515; 36339; 38388; 38548]%N ++ runes_of_ascii "`,
+}
+
+packet Logout {
+    @rightPad('0')
+    char[10] UserName `" ++ [29992; 25143; 21517]%N ++ runes_of_ascii "`,
+    uint64 ClientId `" ++ [23458; 25143; 31471]%N ++ runes_of_ascii "ID`,
+}
+
+packet Heartbeat {
+}
+
+packet RiskControlRequest {
+    string UniqueOrderId `" ++ [21807; 19968; 35746; 21333; 21495]%N ++ runes_of_ascii "`,
+    char[16] ClOrdID `" ++ [23458; 25143; 35746; 21333; 21495]%N ++ runes_of_ascii "`,
+    char[3] MarketID `" ++ [24066; 22330]%N ++ runes_of_ascii "id`,
+    char[12] SecurityID `" ++ [35777; 21048; 20195; 30721]%N ++ runes_of_ascii "`,
+    char Side `" ++ [20080; 21334; 26041; 21521]%N ++ runes_of_ascii "`,
+    char OrderType `" ++ [35746; 21333; 31867; 22411]%N ++ runes_of_ascii "`,
+    u64 Price `" ++ [20215; 26684]%N ++ runes_of_ascii "`,
+    u32 Qty `" ++ [25968; 37327]%N ++ runes_of_ascii "`,
+    repeat string ExtraInfo `" ++ [38468; 21152; 20449; 24687]%N ++ runes_of_ascii "`,
+    repeat SubOrder {
+        char[16] ClOrdID `" ++ [23376; 35746; 21333; 21495]%N ++ runes_of_ascii "`,
+        u64 Price `" ++ [23376; 35746; 21333; 20215; 26684]%N ++ runes_of_ascii "`,
+        u32 Qty `" ++ [23376; 35746; 21333; 25968; 37327]%N ++ runes_of_ascii "`,
+    },
+}
+
+packet RiskControlResponse {
+    string UniqueOrderId `" ++ [21807; 19968; 35746; 21333; 21495]%N ++ runes_of_ascii "`,
+    i32 Status `" ++ [29366; 24577]%N ++ runes_of_ascii "`,
+    string Msg `" ++ [32467; 26524; 20449; 24687]%N ++ runes_of_ascii "`,
+    repeat Detail,
+}
+
+packet Detail {
+    string RuleName `" ++ [35268; 21017; 21517; 31216]%N ++ runes_of_ascii "`,
+    u16 Code `" ++ [21407; 22240; 20195; 30721]%N ++ runes_of_ascii "`,
+}")).
+Eval vm_compute in ("<<<M259>>>" ++ check (runes_of_ascii "root packet u8x {
+    body@lengthOf( i64_ )
+`` , @lengthOf(Foo )
+//x
+// `tick` ""quote"" 'q'
+string_@lengthOf(	int ), @lengthOf(
+rootA//	t
+) @tag( 255 // c
+)
+    match Logon  as roots { 1 : x_y_z, } , }
+    packet len {
+@tag( 0123456789
+)  @leftPad ( '\x00' ) i8i8 {
+//x
+// @lengthOf(
+len `u8 x,` , } , @tag(
+    0123456789// 50% %s
+) u8x A, char[ 007 ]
+    int
+    , @leftPad (
+'\x00')
+float64 len
+    `100% of %d`, }
+    packet crc {
+// `tick` ""quote"" 'q'
+// `tick` ""quote"" 'q'
+match
+calculatedFrom as leftPad { [ // packet A { u8 x, }
+""" ++ [233]%N ++ runes_of_ascii "t" ++ [233]%N ++ runes_of_ascii """ ]  :Foo ""1"" :
+Packet , 1 : stringy [	4294967296
+    // c
+    ,
+""a	b"" ]: leftPad, [ """ ++ [233]%N ++ runes_of_ascii "t" ++ [233]%N ++ runes_of_ascii """,
+""""
+,4294967296 , 0123456789 ,	4294967296  ,
+    ""CRC32"" , 0123456789  ,"""" ] : rootA
+} ,  @rightPad (
+    ) roots {
+As //x
+, repeat
+zchar[1 ]falsey, repeat char[] repeatCount, } //	t
+, roots  `a\`, match
+    charz
+    as i8i8  {  [ ""\" ++ [233]%N ++ runes_of_ascii """, """ ++ [233]%N ++ runes_of_ascii "t" ++ [233]%N ++ runes_of_ascii """ ] :
+// c
+// @lengthOf(
+o // @lengthOf(
+, 42
+    : matchKey ,
+    00 : body,
+""a\\""
+    :
+    rootA
+,} ,
+    }")).
+Eval vm_compute in ("<<<M1356>>>" ++ check (runes_of_ascii "options {
+    LittleEndian = false;
+    StringPrefixLenType = u16;
+    ArrayPrefixLenType = u8;
     FixedStringPadChar = '0';
 }
-
-// c18
-packet Fill {
-    // c21a
-    // c21b
-}// c22
-
-root packet Order {
-    repeat Fill,
-    char[] clOrdID,// c32
-    @rightPad(
-        // c34
-    '\x00' // c35a
-      // c35b
-    )
-    char[4] lastPx,// c41a
-    // c41b
-    char[] OrderId,// c44a
-    // c44b
-    int8 tag7,// c47
-    u8 f1,
-    // c50
-    u16 count @lengthOf(Body),// c56a
-    // c56b
-    match f1 as Body {
-        // c61a
-        // c61b
-        [159, 49] : Fill,
-        // c69
-    },// c71
-    u16 Tail @calculatedFrom(""CRC32""),
-    // c77
-}// c78a
-// c78b")).
-Eval vm_compute in ("<<<M1401>>>" ++ check (runes_of_ascii "// top
-packet
-    // c0
-Sub // c1a
-  // c1b
-{ // c2
-u8 // c3
-a
-    // c4
-, // c5
-@calculatedFrom( // c6a
-  // c6b
-""CRC16"" // c7a
-  // c7b
-)
-    // c8
-i64 // c9
-SubSum
-    // c10
-, // c11
+packet Leg {
+    zchar[1] Ref,
+    repeat string count,
+    repeat InMsgkind21 {
+        repeat char[2] price,
+        uint64 sym,
+        zchar[9] msgKind,
+    },
+    zchar[5] Note,
 }
-    // c12
-root
-    // c13
-packet // c14
-Frame // c15
-{ // c16a
-  // c16b
-u16 MsgType , u16 BodyLen @lengthOf( // c22a
-  // c22b
-Body
-    // c23
-) // c24a
-  // c24b
-, Sub // c26a
-  // c26b
-Body
-    // c27
-,
-    // c28
-string
-    // c29
-note // c30a
-  // c30b
-, // c31a
-  // c31b
-@calculatedFrom(
-    // c32
-""CRC16"" // c33a
-  // c33b
-)
-    // c34
-i64 // c35
-Checksum , // c37
-u8 // c38
-tail // c39
-, } // c41a
-  // c41b
+packet Ack {
+    u16 seqNo,
+    repeat char[1] Acct,
+    @leftPad(' ') char[4] msgKind,
+    repeat InTag747 {
+        Leg,
+    },
+    repeat string Tail,
+    Leg,
+}
+packet Trade {
+    u64 clOrdID,
+    repeat InLastpx24 {
+        char[10] Note,
+        char[3] Qty,
+        repeat char[2] Side2,
+        Ack,
+        repeat InX47 {
+            Ack,
+        },
+    },
+}
+root packet Heartbeat {
+    repeat u64 Acct,
+    string lastPx,
+    u8 Side2,
+    match Side2 as Body {
+        2 : Trade,
+        157 : Ack,
+        46 : Leg,
+    },
+    u32 sym @calculatedFrom(""CRC32""),
+}
 ")).
-Eval vm_compute in ("<<<M1305>>>" ++ check (runes_of_ascii "// top
-packet // c0a
-  // c0b
-A
-    // c1
-{ // c2
-u8 // c3a
-  // c3b
-a // c4
-, // c5
-} // c6
-packet
-    // c7
-B
-    // c8
+Eval vm_compute in ("<<<M1905>>>" ++ check (runes_of_ascii "options  {
+	ArrayPrefixLenType
+
+=u32 ;	FixedStringPadFromLeft
+
+    =
+false
+; 
+FixedStringPadChar
+=
+    '0' ;
+} packet
+Trade
+
 {
-    // c9
-u16 // c10a
-  // c10b
-b , } root // c14a
-  // c14b
-packet // c15
-P // c16a
-  // c16b
-{ u8 K1
-    // c19
-, // c20
+repeat
+	InVenue78 {u16
+tag7
+
+,
+
+repeat InLastpx9
+{
 u8
-    // c21
-K2
-    // c22
-,
-    // c23
-match
-    // c24
-K1 as M1 { // c28a
-  // c28b
-1
-    // c29
-:
-    // c30
-A // c31a
-  // c31b
-, } // c33a
-  // c33b
-,
-    // c34
-match
-    // c35
-K2 // c36
-as // c37
-M2 // c38
-{ 1 : B // c42a
-  // c42b
-,
-    // c43
-} // c44a
-  // c44b
-, // c45
+pad0	, }
+
+    ,	int64
+
+Tail,
+
+    repeat InQty37
+{char[2
+	] OrderId
+,zchar[ 6 ]
+
+    lastPx  , int64
+Qty,}
+	, uint8
+Side2	,
 }
-    // c46
+, 
+}
+
+    packet
+
+    Logon  { repeat  string venue  ,
+    @rightPad  (
+'\x00'
+)
+
+char[ 3
+
+    ]
+sym
+,	zchar[ 9 ] count	,zchar[  7
+]
+    f1, Trade , }  packet 
+Logout 
+{  }  root	packet
+
+    Reject {
+int32 sym ,  u8	Px
+,
+u32
+
+    Tail @lengthOf(	Body ) , match  Px
+as 
+Body 
+{184 :
+Trade
+    ,
+	173 
+: 
+Logon
+
+    ,  12 
+:Logout
+    ,}
+	,
+    u32
+    tag7
+@calculatedFrom(
+""CRC32"")
+    ,
+	}
 ")).
-Eval vm_compute in ("<<<M1907>>>" ++ check (runes_of_ascii "MetaData trueish {
-    uint64 Z9_ `u8 x,`,
-    zchar[3] tag,
+Eval vm_compute in ("<<<M1523>>>" ++ check (runes_of_ascii "packet x_y_z {
+    @tag(1)
+    string u @calculatedFrom(""`tick`""),
 }
 
-root packet tag {
-    Packet chars,
-}
-
-packet trueish {
-    @lengthOf(roots)
-    string repeatCount,
-    @calculatedFrom(""1"")
-    @leftPad(	'\x00' )
-    @tag(3)
-    int16 stringy,
-    // `tick` ""quote"" 'q'
-    @rightPad( '0'
-        )
-    @rightPad('\x00')
-    //
-    // c
-    @lengthOf(x)
-    repeat trueish pack `a\`,
-    len,
-    @tag(3)
-    char packetx,
-}// `tick` ""quote"" 'q'
-
-packet u {
-    u64 options1,
-}
-
-options {
-}")).
-Eval vm_compute in ("<<<M1883>>>" ++ check (runes_of_ascii "MetaData T {
-    char[0123456789] rootA `line1
-    line2`,
-    i32 Logon,
-    rootA asx,
-}
-
-root packet Header {
-    uint32 len @lengthOf(u) `
+packet chars {
+    char[00] crc `two words`,
+    @lengthOf(calculatedFrom)
+    uint64 _x `
     `,
-    repeat char MetaDataX `" ++ [28040; 24687; 31867; 22411]%N ++ runes_of_ascii "`,
-    uint8x @lengthOf(zchar) `u8 x,`,
-    uint8 Z9_,
-    @lengthOf(u128)
-    @lengthOf(MetaDataX)
-    @tag(0123456789)
-    Logon @lengthOf(body),
+    match Logon as falsey {
+        [
+            ""`tick`"", ""\n"", 007, 007, 1,
+            3, ""it's""
+        ] : options1,
+        [42, """ ++ [28040; 24687]%N ++ runes_of_ascii """] : msg_type,
+        007 : string_,
+    },// 50% %s
+    repeatCount lengthOf,
+    @tag(007)
+    Pad,
 }
 
-options {
-    Z9_ = uint32;
-    options1 = '\x00'
-}
-
-options {
-    Foo = ""// no comment"";
-}
-
-packet float {
+packet A {
+    @calculatedFrom(""CRC32"")
+    @lengthOf(zchar)
+    repeatCount {
+        zchar[0] stringy `two words`,
+    },
+    i16 falsey,
+    match A as tag {
+        3 : i64_,
+        [0123456789] : chars,
+        7 : options1,
+    },
 }")).
-Eval vm_compute in ("<<<M95>>>" ++ check (runes_of_ascii "root packet leftPad  {T
-@lengthOf(	A )
-`" ++ [28040; 24687; 31867; 22411]%N ++ runes_of_ascii "` , Header@lengthOf( // trailing space 
-As  ) ,
-string calculatedFrom
-`" ++ [233]%N ++ runes_of_ascii "` , @calculatedFrom(// " ++ [128512]%N ++ runes_of_ascii " emoji
-""a	b"") repeat x_y_z {
-    char[]T , uint8x { char[
-007]
-    Packet @calculatedFrom( ""`tick`""
-)`100% of %d`
+Eval vm_compute in ("<<<M1702>>>" ++ check (runes_of_ascii "  packet
+o
+
+    {
+    zchar[  7
+
+    ] 	 /// triple
+	f32a
+
+    @calculatedFrom(
+    ""a\""b""
+
+    )
+
 ,
-    } ,
-} ,
-char[]
-    T @lengthOf( f32a
-) ,
-    //x
-    options1 Z9_//	t
+@lengthOf(pack
+
+    )
+
+options1
+,@calculatedFrom( 
+""abc"" )Header
+
+    , 
+@lengthOf(
+Logon)
+
+    zchar[ 4294967296
+]
+
+    asx// packet A { u8 x, }
+    @lengthOf(
+	    // a // b
+  // packet A { u8 x, }
+  u
+
+)
+`100% of %d`  ,
+	@leftPad
+( ' '// trailing space 
+	)
+@calculatedFrom( ""`tick`""
+
+    )  uint16  x_y_z`doc` ,
+@tag(00
+)
+    zchar[ //	t
+
+	1 ]	// c
+u
 ,
-char[ 007 ] body `it's` , repeat zchar[42 ]
-Packet `{ , }` , } // a // b")).
+    @calculatedFrom(
+
+    ""a\""b""
+
+) 	 //
+	u8x
+    uint8x 
+,  char[
+1]
+metadata  ,
+    }
+")).
+Eval vm_compute in ("<<<M1371>>>" ++ check (runes_of_ascii "options {
+
+LittleEndian  =	true
+
+    ;	ArrayPrefixLenType  =
+u32 ; 
+FixedStringPadChar 
+=
+' ';
+}
+
+    packet
+    Order 
+{ char[
+5 ]
+    seqNo ,	uint8	Px , } packet 
+Logon
+{ @rightPad
+    ('\x00'
+)
+char[  8 ]Flags
+
+    ,
+    zchar[ 
+3
+]
+
+    count
+
+,	repeat
+
+    Order
+    ,
+}
+    root
+
+packet Party
+	{ repeat 
+Logon ,repeat
+
+    char[
+1
+	]
+	x , 
+u32
+price ,u32
+Side2
+	@lengthOf(
+Body
+	)	,	match	price
+
+as 
+Body 
+{
+    49
+
+: Order,
+
+196:
+
+Logon  ,
+	}  , u32
+f1 @calculatedFrom(	""CRC32""
+
+)  ,	}
+
+")).
+Eval vm_compute in ("<<<M1705>>>" ++ check (runes_of_ascii "packet x_y_z {
+    repeat asx {
+        falsey @lengthOf(u) `100% of %d`,
+        repeat matchKey {
+            x_y_z @calculatedFrom(""a\\""),
+            i64 calculatedFrom @calculatedFrom(""// no comment"") `{ , }`,
+        },
+        // c
+        //	t
+        char[007] Foo @calculatedFrom(""abc""),
+    },
+    repeat uint32 Pad,
+    repeat Logon {
+        Logon {
+            char[] packetx @calculatedFrom(""it's"") `
+            `,
+        },
+        i8 len,
+        asx,
+    },
+}")).
+Eval vm_compute in ("<<<M287>>>" ++ check (runes_of_ascii "packet BodyLength { } packet tag
+{ repeat Logon //
+{ u @calculatedFrom(
+    ""// no comment"" ) `crlf
+line`  ,  char u8x , uint32
+    uint8x ,},} packet T
+{  float32  Z9_ , @lengthOf(
+    pack
+)@calculatedFrom( ""`tick`"" )@lengthOf(u8x )
+u {
+    // `tick` ""quote"" 'q'
+    match
+    repeatCount as u
+//x
+/// triple
+{  ""// no comment"" : packetx , //	t
+1 :falsey
+, } , Z9_ @calculatedFrom(
+    """" ) `doc` , }// @lengthOf(
+,
+    } /// triple")).
+Eval vm_compute in ("<<<M1348>>>" ++ check (runes_of_ascii "  packet
+
+NewOrder
+	{
+u32 
+qty , }
+packet
+Cancel
+
+{	u64 id, } packet Business
+
+{
+	u8
+Kind
+, match
+
+    Kind	as Detail
+{ 1:	NewOrder ,
+
+2 :	Cancel
+    ,
+    } 
+,}packet
+
+    TcpFrame {
+    u8	T  ,
+match
+	T
+    as
+Body
+{	1
+:  Business  , }	,
+} packet 
+UdpFrame {
+
+    u8  U,
+match  U
+
+    as
+Body{1
+: Business
+, } ,	Business extra
+
+    , }root
+packet 
+Wire 
+{
+TcpFrame ,	UdpFrame,
+
+    }
+")).
 Eval vm_compute in ("<<<M334>>>" ++ check (runes_of_ascii "
 packet Header  { @lengthOf( //
 MetaDataX )char[] Z9_ @calculatedFrom( ""CRC32"")
@@ -641,269 +715,239 @@ zchar[255 ] A @calculatedFrom(
 ""{,}"" ) `{ , }` ,@lengthOf(
     Header ) uint8 leftPad@calculatedFrom(""" ++ [233]%N ++ runes_of_ascii "t" ++ [233]%N ++ runes_of_ascii """ ) ,// " ++ [128512]%N ++ runes_of_ascii " emoji
 }")).
-Eval vm_compute in ("<<<M1488>>>" ++ check (runes_of_ascii "packet float {
-    // c2
-    @rightPad( // c4a
-          // c4b
-        )
-    // c5a
-    // c5b
-    rootA @lengthOf(trueish),
-    // c10
-    stringy @lengthOf(matchKey),// c15a
-    // c15b
-    char[4294967296] pack @lengthOf(uint8x),
-    // c23
-}// c24
+Eval vm_compute in ("<<<M180>>>" ++ check (runes_of_ascii "packet Logon{char[ 0123456789 ]Pad	`a\`
+, match pack //	t
+as As {
+[ ""1"" , ""a	b"" ,
+0,""packet"" ] // @lengthOf(
+: u, 7
+    :
+asx  , } , @lengthOf(
+Logon
+) match
+    A as zchar //
+{10 :
+o ,
+    }
+,
+    @leftPad (// " ++ [128512]%N ++ runes_of_ascii " emoji
+'0') o {
+repeat f32
+Logon
+,
+repeatCount
+    @calculatedFrom(
+    ""\n"" ),
+// @lengthOf(
+// `tick` ""quote"" 'q'
+} , }")).
+Eval vm_compute in ("<<<M307>>>" ++ check (runes_of_ascii "packet
+a1
+{ zchar[ 0] x`say ""hi""` , } packet // trailing space 
+BodyLength {
+    match Pad
+as A {""\n"" : len } , } MetaData repeatCount
+    {
+string tag ,
+    }
+    MetaData trueish {u128 string_ ,
+char[ 00 // trailing space 
+] o
+    , string tag,  } packet calculatedFrom { BodyLength `tab	here`, }
 
-root packet trueish {
-    // c28
-    repeat uint64 u128 `say ""hi""`,
-    // c33
-}
-// c34")).
-Eval vm_compute in ("<<<M1722>>>" ++ check (runes_of_ascii "options {
-    roots = 0123456789;//x
-}
-
-options {
-}
-
-packet crc {
-    crc @lengthOf(Pad) `{ , }`,
-    @lengthOf(Logon)
-    char[] BodyLength,
-    @leftPad(
-            '0'
-            )
-    @leftPad(  )
-    @rightPad(	'\x00'
-        )
-    char f32a @lengthOf(body),
-    @tag(255)
-    string body ``,
-}")).
-Eval vm_compute in ("<<<M1394>>>" ++ check (runes_of_ascii "options {
-    LittleEndian = true;
-}
-packet Sub {
-    u8 a,
-    @calculatedFrom(""CRC16"") uint64 SubSum,
-}
-root packet Frame {
-    u16 MsgType,
-    u16 BodyLen @lengthOf(Body),
-    Sub Body,
-    string note,
-    @calculatedFrom(""CRC16"") uint64 Checksum,
-    u8 tail,
-}
 ")).
-Eval vm_compute in ("<<<M1752>>>" ++ check (runes_of_ascii "
-
-  packet
-    P1{u8
-
-    a
-, }
-	packet
-	P2
-{ 
-P1	,}  packet 
-P3  {P2 ,
-    P1
-, } packet P4 {
-
-repeat
-	P3,P2 ,
-	}root
-packet
-	P5 { P4,
-
-    P3
-,	P1
-	,
-
-    u8
-K  ,match 
-K
-as Body {
-	4 :
-	P4 
-,
-
-3 : P3
-	,2
-	: 
-P2 ,1
-
-:
-
-P1
-,
-
-}
-
-    ,
-	} ")).
-Eval vm_compute in ("<<<M457>>>" ++ check (runes_of_ascii "packet
-    asx { @calculatedFrom(
-""""  ) @tag( 255 )repeat
-// packet A { u8 x, }
-// trailing space 
-int16 u8x
-,
-@tag(
-    //
-    007 007 )
-    @tag( 0
-    /// triple
-    ) @tag( 1) u
-    @lengthOf( T ),
-// `tick` ""quote"" 'q'
-//x
-} // " ++ [128512]%N ++ runes_of_ascii " emoji")).
-Eval vm_compute in ("<<<M533>>>" ++ check (runes_of_ascii "packet
-    asx { @calculatedFrom(
-""""  ) @tag( 255 )repeat
-// packet A { u8 x, }
-// trailing space 
-int16 u8x
-,
-@tag(
-    //
-    007 )
-    @tag( 0
-    /// triple
-    ) @tag( 1) u
-    @lengthOf( T ),
-// `tick` ""quote"" 'q'
-//x
-}"" // " ++ [128512]%N ++ runes_of_ascii " emoji")).
-Eval vm_compute in ("<<<M479>>>" ++ check (runes_of_ascii "packet
-    asx { @calculatedFrom(
-""""  ) @tag( 255 )repeat
-// packet A { u8 x, }
-// trailing space 
-int16 u8x
-,
-@tag(
-    //
-    007 )
-    @tag( 0
-    /// triple
-    ( @tag( 1) u
-    @lengthOf( T ),
-// `tick` ""quote"" 'q'
-//x
-} // " ++ [128512]%N ++ runes_of_ascii " emoji")).
-Eval vm_compute in ("<<<M406>>>" ++ check (runes_of_ascii "packet
-    asx { @calculatedFrom(
-  ) @tag( 255 )repeat
-// packet A { u8 x, }
-// trailing space 
-int16 u8x
-,
-@tag(
-    //
-    007 )
-    @tag( 0
-    /// triple
-    ) @tag( 1) u
-    @lengthOf( T ),
-// `tick` ""quote"" 'q'
-//x
-} // " ++ [128512]%N ++ runes_of_ascii " emoji")).
-Eval vm_compute in ("<<<M321>>>" ++ check (runes_of_ascii "packet //x
-roots {
-    @rightPad
-    (	'\x00') @lengthOf(  calculatedFrom
-)	asx
-zchar	,char[255] charz // " ++ [27880; 37322]%N ++ runes_of_ascii "
-`" ++ [233]%N ++ runes_of_ascii "`
+Eval vm_compute in ("<<<M108>>>" ++ check (runes_of_ascii "packet matchKey {repeat len{ zchar,
+match Foo as x { 65535 : asx , 65535 :
+// " ++ [128512]%N ++ runes_of_ascii " emoji
 //	t
-// 50% %s
-, @tag(	1 )
-repeat MetaDataX, repeat
-zchar[ 0] BodyLength  `a\`
-, } MetaData string_ { } 	 ")).
-Eval vm_compute in ("<<<M117>>>" ++ check (runes_of_ascii "packet a1 { repeat o o
-, i8
-falsey ,
-repeat u64 MetaDataX
-, // trailing space 
-}
-    packet
-    // " ++ [27880; 37322]%N ++ runes_of_ascii "
-    int {	tag @calculatedFrom( ""a\\"" ) ,
-    matchKey , trueish// trailing space 
-options1,
-u64 Logon  , }")).
-Eval vm_compute in ("<<<M1322>>>" ++ check (runes_of_ascii "options {
-    FixedStringPadChar = '0';
-}
-packet Q {
-    zchar[4] z,
-    @rightPad('\x00') char[3] n,
-    char[5] d,
-}
-root packet R {
-    Q,
-    zchar[8] top,
-    repeat zchar[2] zs,
-}
+charz 1 : BodyLength ,
+""{,}"": falsey, 1 :zchar, } , }  , }  MetaData // 50% %s
+zchar
+    // packet A { u8 x, }
+    {zchar[7 ] trueish ,u16 matchKey	,
+} options {
+MetaDataX	=
+false }")).
+Eval vm_compute in ("<<<M434>>>" ++ check (runes_of_ascii "packet
+    asx { @calculatedFrom(
+""""  ) @tag( 255 )@calculatedFrom(
+// packet A { u8 x, }
+// trailing space 
+int16 u8x
+,
+@tag(
+    //
+    007 )
+    @tag( 0
+    /// triple
+    ) @tag( 1) u
+    @lengthOf( T ),
+// `tick` ""quote"" 'q'
+//x
+} // " ++ [128512]%N ++ runes_of_ascii " emoji")).
+Eval vm_compute in ("<<<M546>>>" ++ check (runes_of_ascii "packet
+    caf" ++ [233]%N ++ runes_of_ascii "_1 { @calculatedFrom(
+""""  ) @tag( 255 )repeat
+// packet A { u8 x, }
+// trailing space 
+int16 u8x
+,
+@tag(
+    //
+    007 )
+    @tag( 0
+    /// triple
+    ) @tag( 1) u
+    @lengthOf( T ),
+// `tick` ""quote"" 'q'
+//x
+} // " ++ [128512]%N ++ runes_of_ascii " emoji")).
+Eval vm_compute in ("<<<M541>>>" ++ check (runes_of_ascii "packet
+    asx { @calculatedFrom(
+""""  ) @tag( 255 )repeat
+// packet A { u8 x, }
+// trailing space 
+int16 u8x
+,
+@tag(
+    //
+    007@ )
+    @tag( 0
+    /// triple
+    ) @tag( 1) u
+    @lengthOf( T ),
+// `tick` ""quote"" 'q'
+//x
+} // " ++ [128512]%N ++ runes_of_ascii " emoji")).
+Eval vm_compute in ("<<<M509>>>" ++ check (runes_of_ascii "packet
+    asx { @calculatedFrom(
+""""  ) @tag( 255 )repeat
+// packet A { u8 x, }
+// trailing space 
+int16 u8x
+,
+@tag(
+    //
+    007 )
+    @tag( 0
+    /// triple
+    ) @tag( 1) u
+    @lengthOf( , ),
+// `tick` ""quote"" 'q'
+//x
+} // " ++ [128512]%N ++ runes_of_ascii " emoji")).
+Eval vm_compute in ("<<<M436>>>" ++ check (runes_of_ascii "packet
+    asx { @calculatedFrom(
+""""  ) @tag( 255 )repeat
+// packet A { u8 x, }
+// trailing space 
+ u8x
+,
+@tag(
+    //
+    007 )
+    @tag( 0
+    /// triple
+    ) @tag( 1) u
+    @lengthOf( T ),
+// `tick` ""quote"" 'q'
+//x
+} // " ++ [128512]%N ++ runes_of_ascii " emoji")).
+Eval vm_compute in ("<<<M1324>>>" ++ check (runes_of_ascii "options	{	FixedStringPadChar =	'0'
+;
+	}
+
+    packet 
+Q{ zchar[ 4]z,  @rightPad
+
+('\x00')
+
+    char[
+
+    3]
+n  ,
+	char[ 5 ] 
+d  , }
+	root	packet R
+	{
+    Q
+
+,
+zchar[  8	]
+
+top 
+, repeat  zchar[
+    2  ] zs
+,}
 ")).
-Eval vm_compute in ("<<<M1638>>>" ++ check (runes_of_ascii "MetaData u {
-    float64 A,
-    calculatedFrom zchar,
-    char[1] repeatCount,
-    int32 x_y_z,
-    u16 Packet `say ""hi""`,
-    // a // b
+Eval vm_compute in ("<<<M184>>>" ++ check (runes_of_ascii "  root packet body
+    {
+string chars `" ++ [233]%N ++ runes_of_ascii "` , repeat uint8x, match uint8x as x // `tick` ""quote"" 'q'
+{
+    007
+    //	t
+    :
+// c
+// @lengthOf(
+calculatedFrom , }	,
+string_  falsey `
+`
+    ,
 }
 
-options {
-    repeatCount = ' '
-}")).
-Eval vm_compute in ("<<<M701>>>" ++ check (runes_of_ascii "MetaData u
+")).
+Eval vm_compute in ("<<<M1252>>>" ++ check (runes_of_ascii "// top
+root // c0a
+  // c0b
+packet // c1a
+  // c1b
+P // c2a
+  // c2b
+{
+    // c3
+char
+    // c4
+c // c5
+,
+    // c6
+u8 // c7a
+  // c7b
+x
+    // c8
+, // c9a
+  // c9b
+}
+    // c10
+")).
+Eval vm_compute in ("<<<M629>>>" ++ check (runes_of_ascii "MetaData u
     { } MetaData o
+{ float uint8x
+`100% of %d` ,repeatCount u8x, string_ leftPad
+float32 i32
+    Foo , int64 x `two words` , calculatedFrom
+stringy `a\` ,
+}
+")).
+Eval vm_compute in ("<<<M627>>>" ++ check (runes_of_ascii "MetaData u
+    { } MetaData o
+{ float uint8x
+`100% of %d` ,repeatCount u8x, string_ leftPad
+, , i32
+    Foo , int64 x `two words` , calculatedFrom
+stringy `a\` ,
+}
+")).
+Eval vm_compute in ("<<<M563>>>" ++ check (runes_of_ascii "MetaData u
+    { MetaData } o
 { float uint8x
 `100% of %d` ,repeatCount u8x, string_ leftPad
 , i32
     Foo , int64 x `two words` , calculatedFrom
 stringy `a\` ,
-'1'}
-")).
-Eval vm_compute in ("<<<M695>>>" ++ check (runes_of_ascii "MetaData u
-    { } MetaData o
-{ float uint8x
-`100% of %d` ,re~peatCount u8x, string_ leftPad
-, i32
-    Foo , int64 x `two words` , calculatedFrom
-stringy `a\` ,
 }
 ")).
-Eval vm_compute in ("<<<M643>>>" ++ check (runes_of_ascii "MetaData u
-    { } MetaData o
-{ float uint8x
-`100% of %d` ,repeatCount u8x, string_ leftPad
-, i32
-    Foo int64 , x `two words` , calculatedFrom
-stringy `a\` ,
-}
-")).
-Eval vm_compute in ("<<<M1490>>>" ++ check (runes_of_ascii "packet A {
-    match k as n {
-        [
-            1, 22, ""c c"", 4, 5,
-            ""f"", 7, 8, ""i"", 10,
-            11, ""l""
-        ] : B,
-        2 : C,
-    },
-}")).
-Eval vm_compute in ("<<<M547>>>" ++ check (runes_of_ascii " u
-    { } MetaData o
+Eval vm_compute in ("<<<M556>>>" ++ check (runes_of_ascii "MetaData u
+     } MetaData o
 { float uint8x
 `100% of %d` ,repeatCount u8x, string_ leftPad
 , i32
@@ -911,241 +955,208 @@ Eval vm_compute in ("<<<M547>>>" ++ check (runes_of_ascii " u
 stringy `a\` ,
 }
 ")).
-Eval vm_compute in ("<<<M1783>>>" ++ check (runes_of_ascii "// top
+Eval vm_compute in ("<<<M1555>>>" ++ check (runes_of_ascii "// top
 options {
     // c1a
     // c1b
     LittleEndian = true;
-}
+}// c6a
 
+// c6b
 root packet P {
     // c10
-    u16 a,// c13
-    u32 Sum @calculatedFrom(""CRC32""),
+    repeat char cs,
+    // c14
+    u8 x,
+    // c17
 }")).
-Eval vm_compute in ("<<<M1739>>>" ++ check (runes_of_ascii "packet A {
-    match k as n {
-        [
-            1, ""bb"", 007, ""d"", 5,
-            ""f"", 7, ""h"", 9
-        ] : B,
-        2 : C,
-    },
-}")).
-Eval vm_compute in ("<<<M670>>>" ++ check (runes_of_ascii "MetaData u
+Eval vm_compute in ("<<<M707>>>" ++ check (runes_of_ascii "MetaData u
     { } MetaData o
 { float uint8x
 `100% of %d` ,repeatCount u8x, string_ leftPad
 , i32
-    Foo , int64 x `two words` ,")).
-Eval vm_compute in ("<<<M252>>>" ++ check (runes_of_ascii "options
-{ zchar = ' ' ;trueish =
-    false ;packetx = 007 // packet A { u8 x, }
-; Logon=	true	Z9_ =
-    zchar[ 7
-    ]	}")).
-Eval vm_compute in ("<<<M1760>>>" ++ check (runes_of_ascii "
-packet
-
-    A
-	{ match
-
-k
-    as 
-n
-{ [""a""  , 22
-    ,
-""c c""
-
-    , 4	, ""e"" ,
-	66 ,""g""
-	]
-	:
-
-B,	2:
-    C},	}")).
-Eval vm_compute in ("<<<M1223>>>" ++ check (runes_of_ascii "options { } options { MetaDataX = char ; } MetaData // c
-Pad { i8 metadata , string stringy , int8 As `{ , }` , }")).
-Eval vm_compute in ("<<<M1895>>>" ++ check (runes_of_ascii "packet
-
-    A	{ 
-match
-k as
-
-    n
-
-{ 
-[
-
-    1
-
-    ,
-
-    22, ""c c""	,
-	4
-	,	5]
-:
-
-B  2 :	C } 
-,
-} ")).
-Eval vm_compute in ("<<<M445>>>" ++ check (runes_of_ascii "packet
-    asx { @calculatedFrom(
-""""  ) @tag( 255 )repeat
-// packet A { u8 x, }
-// trailing space 
-int16")).
-Eval vm_compute in ("<<<M1913>>>" ++ check (runes_of_ascii "  packet
-A
-{match 
-k
-	as
-
-    n
-	{
-
-[
-""a"",
-
-22
-
-,
-
-""c c""
-
-    ,
-
-4 
-]
-    :
-
-B
-2	:  C},
-    }
-
-")).
-Eval vm_compute in ("<<<M197>>>" ++ check (runes_of_ascii "packet u128	{ }  packet
-_x /// triple
-{ } MetaData T  {
-    u128 f32a
-    // c
-    ,} options{}
-")).
-Eval vm_compute in ("<<<M93>>>" ++ check (runes_of_ascii "packet
-    Foo
-{float64
-    a1,
-string Z9_ @lengthOf(Logon)`line1
-line2`
-    ,
+    Foo , int64 x `two words` , a" ++ [769]%N ++ runes_of_ascii "b
+stringy `a\` ,
 }
-// " ++ [128512]%N ++ runes_of_ascii " emoji
 ")).
-Eval vm_compute in ("<<<M877>>>" ++ check (runes_of_ascii "packet A {
-  match k as n {
-    [1, 22, 007, 4, 5, 66, 7, 8, 9, 10] : B
-    2 : C
-  },
+Eval vm_compute in ("<<<M1583>>>" ++ check (runes_of_ascii "packet A {
+    match k as n {
+        [
+            ""a"", ""bb"", ""c c"", ""d"", ""e"",
+            ""f"", ""g"", ""h""
+        ] : B,
+        2 : C,
+    },
 }")).
-Eval vm_compute in ("<<<M834>>>" ++ check (runes_of_ascii "packet A {
-  match k as n {
-    [""a"", ""bb"", 007, ""d"", ""e"", 66] : B,
-    2 : C
-  },
-}")).
-Eval vm_compute in ("<<<M1499>>>" ++ check (runes_of_ascii "// top
-MetaData
-    // c0
-    tag 
+Eval vm_compute in ("<<<M1651>>>" ++ check (runes_of_ascii "packet 
+A
+	{
+	u16
+	len
+    @lengthOf(
+    body	)  `a
 
-    // c1
-{ 
-	    // c2
-    	}
-    // c3
+b`
+,
+	u32 crc @calculatedFrom(
+""CRC32""
+)
+
+    `a
+
+b`
+,string  body
+    ,
+	}
+
 ")).
-Eval vm_compute in ("<<<M615>>>" ++ check (runes_of_ascii "MetaData u
+Eval vm_compute in ("<<<M966>>>" ++ check (runes_of_ascii "packet A {
+    Inner {
+        u8 x `100% of %s %d %v`,
+        Deep {
+            u8 y `100% of %s %d %v`,
+        },
+    },
+}")).
+Eval vm_compute in ("<<<M904>>>" ++ check (runes_of_ascii "packet A {
+  match k as n {
+    [""a"", ""bb"", ""c c"", ""d"", ""e"", ""f"", ""g"", ""h"", ""i"", ""j"", ""k"", ""l""] : B,
+    2 : C
+  },
+}")).
+Eval vm_compute in ("<<<M1214>>>" ++ check (runes_of_ascii "options { } options { MetaDataX
+// c
+= char ; } MetaData Pad { i8 metadata , string stringy , int8 As `{ , }` , }")).
+Eval vm_compute in ("<<<M1246>>>" ++ check (runes_of_ascii "options { } options { MetaDataX = char ; } MetaData Pad { i8 metadata , string stringy , int8 As `{ , }`
+// c
+, }")).
+Eval vm_compute in ("<<<M960>>>" ++ check (runes_of_ascii "packet A {
+    Inner {
+        u8 x `tab
+	x`,
+        Deep {
+            u8 y `tab
+	x`,
+        },
+    },
+}")).
+Eval vm_compute in ("<<<M964>>>" ++ check (runes_of_ascii "packet A {
+    B b `100% of %s %d %v`,
+    B `100% of %s %d %v`,
+    repeat B bs `100% of %s %d %v`,
+}")).
+Eval vm_compute in ("<<<M873>>>" ++ check (runes_of_ascii "packet A {
+  match k as n {
+    [""a"", ""bb"", 007, ""d"", ""e"", 66, ""g"", ""h"", 9] : B,
+    2 : C
+  },
+}")).
+Eval vm_compute in ("<<<M861>>>" ++ check (runes_of_ascii "packet A {
+  match k as n {
+    [""a"", ""bb"", 007, ""d"", ""e"", 66, ""g"", ""h""] : B
+    2 : C
+  },
+}")).
+Eval vm_compute in ("<<<M1602>>>" ++ check (runes_of_ascii "packet Inner {
+u8
+
+    a , }
+    root packet P
+    {
+
+    Inner ref_obj ,
+
+u8 
+x
+
+,} ")).
+Eval vm_compute in ("<<<M625>>>" ++ check (runes_of_ascii "MetaData u
     { } MetaData o
 { float uint8x
-`100% of %d` ,repeatCount u8x")).
-Eval vm_compute in ("<<<M958>>>" ++ check (runes_of_ascii "packet A {
-    B b `tab
-	x`,
-    B `tab
-	x`,
-    repeat B bs `tab
-	x`,
+`100% of %d` ,repeatCount u8x, string_")).
+Eval vm_compute in ("<<<M851>>>" ++ check (runes_of_ascii "packet A {
+  match k as n {
+    [1, 22, 007, 4, 5, 66, 7, 8] : B
+    2 : C
+  },
 }")).
-Eval vm_compute in ("<<<M1797>>>" ++ check (runes_of_ascii "
-// a
-		MetaData  M{ }	// b
-    // c
-		MetaData  N
-{
-	} // d
-	// e
-")).
-Eval vm_compute in ("<<<M1595>>>" ++ check (runes_of_ascii "packet	A {
-Inner {  u8 x`%`
-, Deep
-    {  u8 y
-`%`
-, } ,	},	}
-")).
+Eval vm_compute in ("<<<M815>>>" ++ check (runes_of_ascii "packet A {
+  match k as n {
+    [1, ""bb"", 007, ""d"", 5] : B,
+    2 : C
+  },
+}")).
+Eval vm_compute in ("<<<M787>>>" ++ check (runes_of_ascii "packet A {
+  match k as n {
+    [""a"", ""bb"", ""c c""] : B,
+    2 : C
+  },
+}")).
+Eval vm_compute in ("<<<M1549>>>" ++ check (runes_of_ascii "packet A {
+    B b `
+    `,
+    B `
+    `,
+    repeat B bs `
+    `,
+}")).
+Eval vm_compute in ("<<<M65>>>" ++ check (runes_of_ascii "packet leftPad
+{ i16 charz // trailing space 
+, // @lengthOf(
+}")).
 Eval vm_compute in ("<<<M1110>>>" ++ check (runes_of_ascii "packet A { @leftPad() char[4] x, @rightPad( ) zchar[2] y, }")).
-Eval vm_compute in ("<<<M139>>>" ++ check (runes_of_ascii "MetaData // " ++ [128512]%N ++ runes_of_ascii " emoji
-Logon {
-char[42 ]Packet , //x
-}
-")).
-Eval vm_compute in ("<<<M1254>>>" ++ check (runes_of_ascii "root packet P {
-    repeat char cs,
+Eval vm_compute in ("<<<M1436>>>" ++ check (runes_of_ascii "packet A {
     u8 x,
-}
-")).
-Eval vm_compute in ("<<<M1503>>>" ++ check (runes_of_ascii "
-options{	a
-=""x\
-y""
-	;
-    b =
-	""x\
-y"" }
-")).
-Eval vm_compute in ("<<<M987>>>" ++ check (runes_of_ascii "options {
-    a = ""\
-"";
-    b = ""\
-""
-}")).
-Eval vm_compute in ("<<<M1192>>>" ++ check (runes_of_ascii "options { A = ""// no comment""
-// c
-}")).
-Eval vm_compute in ("<<<M956>>>" ++ check (runes_of_ascii "root packet A {
-    u8 x `
-x`,
-}")).
-Eval vm_compute in ("<<<M1052>>>" ++ check (runes_of_ascii "packet A {
- u8 x `d" ++ [11]%N ++ runes_of_ascii "`, // c" ++ [11]%N ++ runes_of_ascii "
-}")).
-Eval vm_compute in ("<<<M1835>>>" ++ check (runes_of_ascii "  MetaData
+}// a
 
-    u{
-    }
+// b
+packet B {
+}// c
+// d")).
+Eval vm_compute in ("<<<M372>>>" ++ check (runes_of_ascii "MetaData
+float { packetx
+f32a `crlf
+line` ,}
 ")).
-Eval vm_compute in ("<<<M1146>>>" ++ check (runes_of_ascii "root packet
-// c
-a1 { }")).
-Eval vm_compute in ("<<<M52>>>" ++ check (runes_of_ascii "packet
-int {
-}
-//	t
-")).
-Eval vm_compute in ("<<<M1041>>>" ++ check (runes_of_ascii "// c" ++ [8239]%N ++ runes_of_ascii "
-packet A {
+Eval vm_compute in ("<<<M931>>>" ++ check (runes_of_ascii "MetaData M {
+    u8 x `
+`,
+    T t `
+`,
 }")).
-Eval vm_compute in ("<<<M1038>>>" ++ check (runes_of_ascii "packet A {
-}// c" ++ [8239]%N)).
-Eval vm_compute in ("<<<M400>>>" ++ check (runes_of_ascii "packet
-    asx")).
-Eval vm_compute in ("<<<M1024>>>" ++ check (runes_of_ascii "// c" ++ [8202]%N)).
+Eval vm_compute in ("<<<M590>>>" ++ check (runes_of_ascii "MetaData u
+    { } MetaData o
+{ float")).
+Eval vm_compute in ("<<<M1962>>>" ++ check (runes_of_ascii "
+packet
+
+A{ u8
+
+    x
+`a
+b` ,
+}
+")).
+Eval vm_compute in ("<<<M192>>>" ++ check (runes_of_ascii "
+options
+    { asx = false
+;  }
+")).
+Eval vm_compute in ("<<<M1022>>>" ++ check (runes_of_ascii "packet A {
+ u8 x `d" ++ [8192]%N ++ runes_of_ascii "`, // c" ++ [8192]%N ++ runes_of_ascii "
+}")).
+Eval vm_compute in ("<<<M740>>>" ++ check (runes_of_ascii "? Yk{t2<omLkW}'N@Vi/x[_j_,J")).
+Eval vm_compute in ("<<<M364>>>" ++ check (runes_of_ascii "
+packet string_
+    { }")).
+Eval vm_compute in ("<<<M1558>>>" ++ check (runes_of_ascii "// c
+MetaData tag {
+}")).
+Eval vm_compute in ("<<<M1040>>>" ++ check (runes_of_ascii "packet A {
+}
+// c" ++ [8239]%N)).
+Eval vm_compute in ("<<<M1028>>>" ++ check (runes_of_ascii "packet A {
+}// c" ++ [8232]%N)).
+Eval vm_compute in ("<<<M216>>>" ++ check (runes_of_ascii "packet u8x { }")).
+Eval vm_compute in ("<<<M1004>>>" ++ check (runes_of_ascii "// c" ++ [160]%N)).
+Eval vm_compute in ("<<<M733>>>" ++ check ([0]%N)).
